@@ -252,11 +252,13 @@ namespace
         void op_construct(const Step& st)
         {
             int t = st.actor % 3;
-            static const char* const vn[] = {"default", "from_lvalue", "from_rvalue", "copy", "move"};
-            unsigned v = static_cast<unsigned>(st.d % 5);
+            static const char* const vn[] = {"default", "from_lvalue", "from_rvalue", "copy", "move", "from_const_rvalue_any"};
+            unsigned v = static_cast<unsigned>(st.d % 6);
             int k = static_cast<int>(st.a % NT);
             int src = (t + 1 + static_cast<int>(st.c % 2)) % 3;
             std::string var = std::string(vn[v]) + "_" + ((v == 1 || v == 2) ? tnames[k] : (v >= 3 ? mname(src) : "-"));
+            bool const_rvalue = v == 5;
+            if (const_rvalue) v = 3;      // std::move of a const any is a copy
             Scope sc(*this, st, "construct", var);
             uint64_t id = canon(k, fresh());
             MA pre_src = model[src];
@@ -273,7 +275,7 @@ namespace
                 case 0: { Active a; new (p) xtl::any(); } break;
                 case 1: with_type(k, [&](auto K) { auto val = TypeOf<decltype(K)::value>::make(id); { Active a; new (p) xtl::any(val); } }); want.empty = false; want.type = k; want.id = id; break;
                 case 2: with_type(k, [&](auto K) { auto val = TypeOf<decltype(K)::value>::make(id); { Active a; new (p) xtl::any(std::move(val)); } }); want.empty = false; want.type = k; want.id = id; break;
-                case 3: { Active a; new (p) xtl::any(static_cast<const xtl::any&>(slot[src].get())); } want = pre_src; break;
+                case 3: { Active a; if (const_rvalue) new (p) xtl::any(std::move(static_cast<const xtl::any&>(slot[src].get()))); else new (p) xtl::any(static_cast<const xtl::any&>(slot[src].get())); } want = pre_src; break;
                 default: { Active a; new (p) xtl::any(std::move(slot[src].get())); } want = pre_src; break;
                 }
             }
@@ -430,8 +432,9 @@ namespace
             bool same = !model[t].empty && (st.b % 3 != 0);
             int k = same ? model[t].type : static_cast<int>(st.a % NT);
             if (!model[t].empty && k == model[t].type) same = true;
-            unsigned qual = static_cast<unsigned>(st.d % 3);   // 0 plain, 1 const, 2 (ref forms) const ref / (ptr form) volatile-free const
-            std::string var = std::string(same ? "stored_type_" : "other_type_") + tnames[k] + (qual ? "_const" : "") + (model[t].empty ? "_on_empty" : "");
+            unsigned qual = static_cast<unsigned>(st.d % 5);   // 0 plain, 1 const, 2 (ref forms) const ref through a non-const any, 3 volatile, 4 const volatile (pointer form only)
+            if (form != 0 && qual >= 3) qual -= 2;
+            std::string var = std::string(same ? "stored_type_" : "other_type_") + tnames[k] + (qual >= 3 ? (qual == 3 ? "_volatile" : "_const_volatile") : (qual ? "_const" : "")) + (model[t].empty ? "_on_empty" : "");
             Scope sc(*this, st, fn[form], var);
             xtl::any& a = slot[t].get();
             const xtl::any& ca = a;
@@ -449,6 +452,8 @@ namespace
                     {
                     case 0:
                         if (qual == 0) { T* p = xtl::any_cast<T>(&a); ok = p != nullptr; if (p) { got = TypeOf<KK>::id(*p); addr_ok = p == stored; } }
+                        else if (qual == 3) { volatile T* p = xtl::any_cast<volatile T>(&a); ok = p != nullptr; if (p) { addr_ok = const_cast<const T*>(p) == stored; if (addr_ok) got = TypeOf<KK>::id(*stored); } }
+                        else if (qual == 4) { const volatile T* p = xtl::any_cast<const volatile T>(&ca); ok = p != nullptr; if (p) { addr_ok = const_cast<const T*>(p) == stored; if (addr_ok) got = TypeOf<KK>::id(*stored); } }
                         else { const T* p = xtl::any_cast<const T>(&ca); ok = p != nullptr; if (p) { got = TypeOf<KK>::id(*p); addr_ok = p == stored; } }
                         break;
                     case 1:
